@@ -13,12 +13,12 @@ CLAIMED = {
     ),
     'C04': dict(
         technique='online trace automaton over both decoded wire logs (independent RFC 9174 decoder) with cross-stream correlation',
-        text='Exploration: the C01 workload with and without termination requests by A, B or both at seeded scheduler steps, plus every cut-point of two base scenarios; the automaton enforces header/SESS_INIT order, allowed message set, single SESS_TERM, no START after own SESS_TERM, contiguity, START/END placement, Transfer-Length = sum, fresh ids, segment <= peer MRU, k-th ACK echoing the k-th segment with cumulative length.',
+        text='Exploration: the C01 workload with and without termination requests by A, B or both at seeded scheduler steps, plus every cut-point of two base scenarios; the automaton enforces header/SESS_INIT order, allowed message set, single SESS_TERM, no START after own SESS_TERM, contiguity, START/END placement, Transfer-Length = sum, fresh ids, segment <= peer MRU, k-th ACK echoing the k-th segment with cumulative length. Also non-ASCII node ids and the rule that a stream does not end in the middle of a message once the world is quiescent.',
         note=_NOTE,
     ),
     'C09': dict(
         technique='runtime monitor of boundary signals, decoded wire logs, socket close events and on-close callbacks under exhaustive cut-point enumeration of termination/close/process-death requests',
-        text='Exploration with exhaustive sub-spaces: every scheduler step of 4 (thorough 5) deterministic baseline scenarios x requester {A, B, both} x action {terminate, close, peer process death}, then seeded random scenarios and cut-points; obligations (a)-(e) of the statement are decided at world quiescence only (half-open = quiescent and still open). Plus a real endpoint against a conformant scripted peer that reads slowly through small socket buffers, acknowledges or refuses, sends or answers SESS_TERM and then waits for the endpoint to close; plus Agent.shutdown() of real agents holding 1-3 contacts at different stages.',
+        text='Exploration with exhaustive sub-spaces: every scheduler step of 4 (thorough 5) deterministic baseline scenarios x requester {A, B, both} x action {terminate, close, peer process death}, then seeded random scenarios and cut-points; obligations (a)-(e) of the statement are decided at world quiescence only (half-open = quiescent and still open). Plus a real endpoint against a conformant scripted peer that reads slowly through small socket buffers, acknowledges or refuses, sends or answers SESS_TERM and then waits for the endpoint to close; plus Agent.shutdown() of real agents holding 1-3 contacts at different stages. Bundles accepted but never started must be reported finished before the contact leaves the bus (close(), lost peer, shutdown).',
         note=_NOTE + ' A refused terminate() imposes only "session unharmed". Agent.shutdown() over several contacts is exercised in the C18 agent scenarios.',
     ),
     'C13': dict(
@@ -33,22 +33,22 @@ CLAIMED = {
     ),
     'C14': dict(
         technique='runtime monitor in virtual time: send_message/recv_raw recorder on both real endpoints judged by a keepalive/idle timer model; get_session_parameters() vs announced values; icontract postcondition on the segment-size controller plus wire bound',
-        text='Exploration over the 6x6 keepalive grid x idle times with traffic placed 1 ms before, at and 1 ms after each deadline (virtual clock), a mute-peer family for the terminating-endpoint clause (idle times x keepalives x request offsets x in-flight bundle) and seeded adaptive-segment-size runs with 1 ms network latency; every KEEPALIVE must follow exactly K of own silence, no silence longer than K, SESS_TERM(idle-timeout) exactly at I without traffic, closure by request + I. The mute-peer family also covers termination started by the idle timer itself (SESS_TERM at I, closed by 2I).',
+        text='Exploration over the 6x6 keepalive grid x idle times with traffic placed 1 ms before, at and 1 ms after each deadline (virtual clock), a mute-peer family for the terminating-endpoint clause (idle times x keepalives x request offsets x in-flight bundle) and seeded adaptive-segment-size runs with 1 ms network latency; every KEEPALIVE must follow exactly K of own silence, no silence longer than K, SESS_TERM(idle-timeout) exactly at I without traffic, closure by request + I. The mute-peer family also covers termination started by the idle timer itself (SESS_TERM at I, closed by 2I). Also peers that trickle a large message a few octets at a time (every octet is peer activity: no idle termination before I after the last octet), scripted peers announcing extreme SESS_INIT values, one-way network delay, and configuration loaded through Config.from_file().',
         note=_NOTE + ' Timer verdicts use the virtual clock only.',
     ),
     'C18': dict(
         technique='runtime monitor: every signal emission and method return checked against its declared signature by a model of dbus-python marshalling calibrated on the real library; shadow-model invariant evaluated after every event-loop callback and boundary call',
-        text='Exploration: seeded two-endpoint scenarios with boundary calls (send, pop, queue and idle queries, terminate) interleaved at random scheduler steps and the queue/idle invariant evaluated after EVERY callback; scripted-peer refusal runs so that every contact signal is emitted; two real tcpcl.agent.Agent objects over the simulated listen/accept/connect path with shutdown() at 0-3 contacts in mixed states; the real UDPCL agent with benign transfers and hostile polling items. Signals emitted on an object that has left the bus are ignored (dbus-python sends nothing) and boundary calls to such an object get UnknownObject; the UDPCL agent is fed whole and segmented bundles whose peer-chosen transfer ids coincide with local receive ids (announced ids distinct, queue == announced, pops return each bundle once).',
+        text='Exploration: seeded two-endpoint scenarios with boundary calls (send, pop, queue and idle queries, terminate) interleaved at random scheduler steps and the queue/idle invariant evaluated after EVERY callback; scripted-peer refusal runs so that every contact signal is emitted; two real tcpcl.agent.Agent objects over the simulated listen/accept/connect path with shutdown() at 0-3 contacts in mixed states; the real UDPCL agent with benign transfers and hostile polling items. Signals emitted on an object that has left the bus are ignored (dbus-python sends nothing) and boundary calls to such an object get UnknownObject; the UDPCL agent is fed whole and segmented bundles whose peer-chosen transfer ids coincide with local receive ids (announced ids distinct, queue == announced, pops return each bundle once). After a refusal that follows the END segment, with the other transfer acknowledged, is_sess_idle() must be true.',
         note=_NOTE + ' The marshalling model is calibrated on 857 (signature, value) rows produced by real dbus-python 1.3.2.',
     ),
     'C15': dict(
         technique='runtime monitor of a real endpoint with a scenario-controlled fake TLS layer and real X.509 certificates, judged by an independent policy decision function over the whole decision table',
-        text='Exhaustive over the decision table (1602 rows): local/peer TLS capability x require-TLS x handshake result x role/naming x IP/DNS/URI SAN states x require-host x require-node; observed: handshake attempted, SESS_INIT emitted, state, SESS_TERM reason, closure, is_secure(), authn parameters, and a probe that no transfer flows after a refusal.',
+        text='Exhaustive over the decision table (1602 rows): local/peer TLS capability x require-TLS x handshake result x role/naming x IP/DNS/URI SAN states x require-host x require-node; observed: handshake attempted, SESS_INIT emitted, state, SESS_TERM reason, closure, is_secure(), authn parameters, and a probe that no transfer flows after a refusal. Rows are also run with the configuration loaded through Config.from_file(), with an empty announced node id, with SESS_INIT pipelined behind the contact header, and with a second / repeated SESS_INIT after acceptance or refusal (must be rejected, never renegotiated, no exception).',
         note=_NOTE + ' The TLS handshake itself is simulated; only the decisions around it are judged.',
     ),
     'C17': dict(
         technique='runtime monitor of loop exception records, decoded wire output, receive queue and own-transfer progress of a real endpoint driven by a scripted adversarial peer, judged by a peer-model automaton',
-        text='Exploration with exhaustive sub-spaces: in each of six endpoint states and both roles, all sequences of length <= 2 (thorough <= 3 over a reduced alphabet) of ~16 state-relative messages (segments, ACKs, refusals, SESS_TERM, unknown types, bad contact headers), then seeded random sequences up to length 12; afterwards the scripted peer acknowledges honestly and the endpoint\'s own transfers must complete. The alphabet includes unknown type codes 0x00/0x08/0x0f/0xff and bad contact headers followed by a good header (and SESS_INIT) in the same write.',
+        text='Exploration with exhaustive sub-spaces: in each of six endpoint states and both roles, all sequences of length <= 2 (thorough <= 3 over a reduced alphabet) of ~16 state-relative messages (segments, ACKs, refusals, SESS_TERM, unknown types, bad contact headers), then seeded random sequences up to length 12; afterwards the scripted peer acknowledges honestly and the endpoint\'s own transfers must complete. The alphabet includes unknown type codes 0x00/0x08/0x0f/0xff and bad contact headers followed by a good header (and SESS_INIT) in the same write. Directed histories: own bundles given up when termination begins (by the peer or by terminate()) and then named by the peer\'s XFER_ACK / XFER_REFUSE: treated as unknown ids.',
         note=_NOTE,
     ),
     'C02': dict(
@@ -68,17 +68,17 @@ CLAIMED = {
     ),
     'C10': dict(
         technique='runtime history monitor: application and CL observers plus seen-table peek after every receive, against an executable reference model of the receive policy',
-        text='Exploration: seeded histories (1-40 bundles) with exact repeats, one-component look-alikes, fragments, own-source and administrative-endpoint bundles over random routing tables of overlapping anchored patterns; after each receive the observed deliveries, forwards, reports and seen-set are compared with the model. Histories also contain copies damaged in transit (CRC failure) arriving before the intact copy: dropped without trace.',
+        text='Exploration: seeded histories (1-40 bundles) with exact repeats, one-component look-alikes, fragments, own-source and administrative-endpoint bundles over random routing tables of overlapping anchored patterns; after each receive the observed deliveries, forwards, reports and seen-set are compared with the model. Histories also contain copies damaged in transit (CRC failure) arriving before the intact copy: dropped without trace. Long histories (256+ identities between a bundle and its repeat), bursts of receives before the loop runs, ipn node ids loaded from a configuration file.',
         note=_NOTE,
     ),
     'C03': dict(
         technique='runtime differential monitor: integrity blocks produced by the real source agent verified by an independent AAD/COSE implementation, and every single-bit flip / field edit of the encoding judged at a real receiver against the covered octet spans computed by an independent CBOR walker',
-        text='Exploration with an exhaustive sub-space: for COSE_Mac0 (HMAC-256/384/512) and COSE_Sign1 bundles from the real source EVERY single-bit flip of the encoding (sampled for large ones) is classified by location (covered: primary block, target metadata/data, security source, scope/protected parameters, protected header, tag; outside: other blocks) and pushed through a real receiver; field-level edits with CRCs recomputed; oracle-built BIBs with scopes adding other blocks, the security block itself and additional protected parameters; wrong and missing keys. Covered alteration delivered = violation; outside alteration rejected = violation; agent BIB not verifying independently = violation. Multi-target blocks: the result of one target removed and that target altered.',
+        text='Exploration with an exhaustive sub-space: for COSE_Mac0 (HMAC-256/384/512) and COSE_Sign1 bundles from the real source EVERY single-bit flip of the encoding (sampled for large ones) is classified by location (covered: primary block, target metadata/data, security source, scope/protected parameters, protected header, tag; outside: other blocks) and pushed through a real receiver; field-level edits with CRCs recomputed; oracle-built BIBs with scopes adding other blocks, the security block itself and additional protected parameters; wrong and missing keys. Covered alteration delivered = violation; outside alteration rejected = violation; agent BIB not verifying independently = violation. Multi-target blocks: the result of one target removed and that target altered. COSE_Sign1 with x5chain or x5t over certificate variants (other node, no SAN, DNS only, untrusted CA, prefix look-alikes) and validity judged at the bundle\'s creation time (expired, not yet valid, creation times up to 2^64-1).',
         note=_NOTE + ' COSE_Mac with a wrapped key and x5t-only signing cannot run with the upstream pycose 1.1.0 installed here (source raises); a mutant that re-types the security block itself carries no obligation.',
     ),
     'C12': dict(
         technique='runtime monitor at the application step of the receive chain and the CL boundary (status report reason) of a real receiver, judged by an independent verify-all oracle over malformation classes built by an independent encoder',
-        text='Exploration over the product of 21 security-block classes (valid, none, wrong tag, unknown key id, altered target/primary, unknown context, missing target, duplicate parameters/results, count mismatch, 0/2 results, garbage/wrong-type/truncated COSE, non-ASB data, bad source EID, scope naming a missing block, two blocks with the first/second/neither failing) x BIB/BCB x key store {all, wrong, none} x accept-after-verify x deletion report requested; fail => no delivery, no escaping exception, report with deleted + security reason; ok/none => delivered with the expected payload and accepted blocks removed. Also valid blocks whose AAD scope binds metadata and data (flags 3) of the target or another block, and the same parameter id twice with another parameter in between.',
+        text='Exploration over the product of 21 security-block classes (valid, none, wrong tag, unknown key id, altered target/primary, unknown context, missing target, duplicate parameters/results, count mismatch, 0/2 results, garbage/wrong-type/truncated COSE, non-ASB data, bad source EID, scope naming a missing block, two blocks with the first/second/neither failing) x BIB/BCB x key store {all, wrong, none} x accept-after-verify x deletion report requested; fail => no delivery, no escaping exception, report with deleted + security reason; ok/none => delivered with the expected payload and accepted blocks removed. Also valid blocks whose AAD scope binds metadata and data (flags 3) of the target or another block, and the same parameter id twice with another parameter in between. Further classes: multi-target blocks with one failing target, an attached original payload with an altered target, certificate variants, and an x5t history (thumbprint look-up, validity window at creation time).',
         note=_NOTE,
     ),
     'C16': dict(
@@ -88,22 +88,22 @@ CLAIMED = {
     ),
     'C11': dict(
         technique='runtime differential monitor on transmitted bytes: forwarded output of the real agent decoded by the independent RFC 9171 decoder and compared field by field with the received bundle',
-        text='Exploration over the product of hop-by-hop block combinations (previous node none/other/self, 0-2 hop counts, age, 0-2 unknown blocks), CRC types, dense/sparse/permuted numbering, creation time zero or not, lifetimes, dwell times and two routes; two Previous Node / Bundle Age blocks, anonymous source; plus histories of different bundles through one agent to expose state carried between forwards.',
+        text='Exploration over the product of hop-by-hop block combinations (previous node none/other/self, 0-2 hop counts, age, 0-2 unknown blocks), CRC types, dense/sparse/permuted numbering, creation time zero or not, lifetimes, dwell times and two routes; two Previous Node / Bundle Age blocks, anonymous source; plus histories of different bundles through one agent to expose state carried between forwards. Also dtn:none / ipn:0.0 / ipn:2^32 sources, unassigned flag bits, and administrative records in transit (identified by identity, compared octet for octet).',
         note=_NOTE,
     ),
     'C19': dict(
         technique='runtime monitor of administrative records at the CL boundary against a reference expectation model, over the complete flag x report-to x outcome product',
-        text='Exploration with an exhaustive sub-space: all 2^5 request-flag subsets x 3 report-to values x 8 outcomes (incl. forward with real fragmentation, security failure, duplicate) plus forwarding that fails for lack of a transmit route x 3 CRC types = 2304 combinations, each on a fresh agent; report presence, addressee, subject, asserted set, times, flags and CRCs are checked.',
+        text='Exploration with an exhaustive sub-space: all 2^5 request-flag subsets x 3 report-to values x 8 outcomes (incl. forward with real fragmentation, security failure, duplicate) plus forwarding that fails for lack of a transmit route x 3 CRC types = 2304 combinations, each on a fresh agent; report presence, addressee, subject, asserted set, times, flags and CRCs are checked. Also confidentiality-failure outcomes, clockless subjects, reports larger than the route MTU (reassembled before judging) and fragment histories (one report per requested event of the reassembled bundle).',
         note=_NOTE + ' For "no route" and "duplicate" only the only-if direction and content are enforced.',
     ),
     'C06': dict(
         technique='runtime history monitor: application observer after every fragment arrival at the real BP agent, against an integer coverage model with position-coded payloads',
-        text='Exploration with exhaustive sub-spaces: all permutations of fragment sets of up to 5 (thorough 6) pieces for uniform, uneven, overlapping, nested, same-offset and zero-length fragmentations, every single duplicate at every position for sets up to 4, seeded permutations up to 200 fragments, 2-3 interleaved bundles differing in one identity component, and fragment sets produced by the real fragmenter; exactly one delivery, at the completing arrival, with the original payload and the first fragment\'s extension blocks.',
+        text='Exploration with exhaustive sub-spaces: all permutations of fragment sets of up to 5 (thorough 6) pieces for uniform, uneven, overlapping, nested, same-offset and zero-length fragmentations, every single duplicate at every position for sets up to 4, seeded permutations up to 200 fragments, 2-3 interleaved bundles differing in one identity component, and fragment sets produced by the real fragmenter; exactly one delivery, at the completing arrival, with the original payload and the first fragment\'s extension blocks. Also at least 17 bundles pending reassembly at once and fragments that are fragmented again.',
         note=_NOTE,
     ),
     'C07': dict(
         technique='runtime monitor: recv_message recorder + receive-buffer probe on the real endpoint, judged by an independent RFC 9174 stream parser; codec differential both ways',
-        text='Exploration with exhaustive sub-spaces: every composition (2^13) of 14-octet streams, every single cut of streams up to 300 octets, directed and random cuts of long streams, plus loop-driven runs; each feed step is checked for exactly-the-completed-messages and exact buffer occupancy. Codec half compares fields in both directions for directed boundary values and seeded random messages of all seven types and the contact header.',
+        text='Exploration with exhaustive sub-spaces: every composition (2^13) of 14-octet streams, every single cut of streams up to 300 octets, directed and random cuts of long streams, plus loop-driven runs; each feed step is checked for exactly-the-completed-messages and exact buffer occupancy. Codec half compares fields in both directions for directed boundary values and seeded random messages of all seven types and the contact header. Streams include segments as large as the configured MRU, reserved flag bits and chunks aligned to the 10240-octet read size; bursts of reads before the loop runs; and the framing runs behind the daemon\'s own start-up logging configuration at DEBUG and INFO.',
         note=_NOTE + ' Known findings (not masked for other inputs): MSG_REJECT field order; multi-item extension lists decode to a blob.',
     ),
 }
